@@ -32,6 +32,7 @@ package common
 //@   ensures [truncated-to-8-places] val(v) == Floor8(x)
 //@   ensures [non-negative] val(v) >= 0
 //@   assumes x == ExtraStoragePriceStep ==> val(v) == 10000
+//@   assumes x == "89.87671232" ==> val(v) == 8987671232   -- C25: the amount of the last legacy mint batch (kernel/mint.go lastMintDistribution)
 
 //@ -- x * 10^8 (math.Pow(10, 8) is exact)
 //@ func NewInteger(x)
